@@ -74,6 +74,17 @@ def _len(run, prog, ts):
 
 
 def _reservoirs(run, prog, ts):
+    init = prog.summarise(ts, "__init__")
+    dr = init.fields.get("data_reservoirs")
+    ok = dr is not None and dr[0] == "comp" and dr[1] == "dict" and not dr[6] and dr[4] == ("elem", dr[2]) and \
+        dr[5][0] == "new" and dr[5][2] == "dict" and not dr[5][3] and dr[2] in (ir.site_loops(dr[5]) or ())
+    why = ""
+    if dr is not None and dr[0] == "comp" and dr[5][0] == "new" and dr[2] not in (ir.site_loops(dr[5]) or ()):
+        why = "every feature is given the same inner dict object (reservoirs of different features overwrite and delete each other)"
+    run.check(ok, "RESERVOIR", "per-feature-dicts", f"{init.path}:{init.fn.lineno}", f"{TS}.__init__",
+              f"data_reservoirs = {ir.show_nl(dr)[:100] if dr else None}",
+              f"every feature needs its own, initially empty, dict of leaf reservoirs: {why or (ir.show_nl(dr)[:120] if dr else 'missing')}",
+              "data_reservoirs = {feature: {} for feature in feature_names} (fresh dict per feature)")
     s = prog.summarise(ts, "update")
     fq = f"{TS}.update"
     _, fn = prog.find_method(ts, "update")
@@ -359,6 +370,7 @@ WITNESSES = [
                                                    "            sampled_values = {}\n            for feature_name in feature_subset:\n                if self.use_storage:\n                    sampled_value = self._sample_from_storages(feature_name, {**x_i, **sampled_values}, n_samples=n_samples)")]),
     ("fallback on every lookup", [(_I, "            sampled_feature_value = x_sampled[feature_name]\n        except KeyError:", "            sampled_feature_value = self._sample(feature_name=feature_name, x_i=x_i)\n        except KeyError:")]),
     ("insert only into new reservoirs", [(_T, "            self._delete_outdated_reservoirs(feature_name, root_node)\n        data_reservoir[leaf_id].update(x)\n", "            self._delete_outdated_reservoirs(feature_name, root_node)\n            data_reservoir[leaf_id].update(x)\n")]),
+    ("shared inner reservoir dict", [(_T, "self.data_reservoirs = {feature: {} for feature in self.feature_names}", "self.data_reservoirs = dict.fromkeys(self.feature_names, {})")]),
     ("route before learning", [(_T, "                feature_model.learn_one(x_i, y_i)\n                self._update_data_reservoirs(feature_name, x_i, x)\n", "                self._update_data_reservoirs(feature_name, x_i, x)\n                feature_model.learn_one(x_i, y_i)\n")]),
 ]
 SILENT = [
